@@ -32,6 +32,13 @@ def execute(prop, tier, seed, sc, topo, disconnect=False):
         if not tlc_ok(code, out):
             raise Inconclusive("the atomic Approval model violates the contract:\n" + out[-2000:])
         states += tlc_stats(out)["distinct"]
+    # liveness: under weak fairness of the verdict steps and of the timer callbacks every write is eventually decided
+    for writes, ncb, atomic in [(["w1", "w2"], 2, True), (["w1"], 2, False), (["w1", "w2"], 1, False)] + ([] if quick else [(["w1", "w2"], 2, False)]):
+        code, out = run_tlc("Approval.tla", cfg_text("LiveSpec", {"Writes": set(writes), "NCb": ncb, "Atomic": atomic, "TallyReset": False, "Epochs": 1, "StaleTally": False},
+                                                     properties=["EveryWriteDecided"]), timeout=1800, workers=NCPU, heap="8g")
+        if not tlc_ok(code, out):
+            raise Inconclusive("the Approval model is not live (a write that is never decided):\n" + out[-2000:])
+        states += tlc_stats(out)["distinct"]
     scheds = []
     for writes, ncb, cap in [(["w1"], 1, None), (["w1"], 2, None), (["w1", "w2"], 1, 400 if quick else None), (["w1"], 3, 300 if quick else 3000)]:
         s, st = gen(writes, ncb, False)
